@@ -44,6 +44,26 @@ def gen_entry(g, gid=None):
     return Entry(gid, g, 'gen', gen_tu.tla_json(g, gid))
 
 
+class LexGrammar:
+    """stand-in for gram.Grammar for token-list grammars over a term set (C04)"""
+
+    def __init__(self, name, terms):
+        self.name, self.terms = name, terms
+        self.nts, self.ts, self.root = ['L'], [], 'L'
+        self.rules = [('L', [], 0)] + [('L', ['L', 't%d' % i], 0) for i in range(len(terms))]
+        self.tprec, self.tassoc, self.tags = {}, {}, ()
+
+    def has_error(self):
+        return False
+
+
+def lex_entry(name, terms):
+    gid = '%s@lex' % name
+    e = Entry(gid, LexGrammar(name, terms), 'gen', gen_tu.lex_tla_json(gid, terms))
+    e.lexterms = terms
+    return e
+
+
 def add_jobs(entry, inputs, buf=0, stream=0, verbose=True, ws=True, nl=True, tag=''):
     for b in inputs:
         entry.jobs.append(('%s:%s%d' % (entry.gid, tag, len(entry.jobs)), buf, stream, int(verbose), int(ws), int(nl), list(b)))
@@ -58,7 +78,7 @@ def run_harness(entries, workname):
     for e in gens:
         src = os.path.join(work, e.gid.replace('@', '_').replace('/', '_') + '.cpp')
         with open(src, 'w') as f:
-            f.write(gen_tu.tu_source(e.g, e.gid))
+            f.write(gen_tu.lex_tu(e.gid, e.lexterms) if hasattr(e, 'lexterms') else gen_tu.tu_source(e.g, e.gid))
         specs.append(('gen_' + e.gid.replace('@', '_'), src, ()))
     gbins = vlib.build_many(specs) if specs else {}
     runs = []
